@@ -85,11 +85,32 @@ func binaryFields(fn *ssa.Function, table map[string]int) []byteField {
 }
 
 func runC06(c *Ctx) {
+	if fn := c.P.Func("(*internal/wal.Writer).rotate"); fn != nil {
+		excl, nano := false, false
+		for _, call := range callsIn(fn, false) {
+			switch callName(call) {
+			case "os.OpenFile":
+				if k, ok := constInt(call.Common().Args[1]); ok && k&0x80 != 0 { // O_EXCL on linux
+					excl = true
+				}
+			case "(time.Time).Format":
+				if sv, ok := constString(call.Common().Args[1]); ok && (strings.Contains(sv, ".000000000") || strings.Contains(sv, ".999999999")) {
+					nano = true
+				}
+			case "(time.Time).UnixNano":
+				nano = true
+			}
+		}
+		c.Check(excl || nano, "C06.ROTATE", "rotate|new-file-is-new", fn.Pos(), "exclusive create or nanosecond-resolution name", "rotate names the new file from a clock layout coarser than a nanosecond and opens it with O_CREATE|O_APPEND but without O_EXCL: two rotations within one tick re-open the file being written and append a second `ARCW` header in its middle — the reader takes it for an over-long payload, resumes misaligned, and every complete entry after it is hidden")
+	} else {
+		c.Unk("C06.ROTATE", "rotate|function", 0, "function not found")
+	}
 	c.Rule("C06.LAYOUT", "AGREE: the entry framing (length, timestamp, CRC offsets/widths and payload offset) written by AppendRaw and AppendRawWithMeta equals what readEntry reads; likewise the envelope (marker, name length, name offset) between AppendRawWithMeta and ParseEnvelope, and the file header between rotate and ReadAll")
 	c.Rule("C06.CRC", "FLOW+DOM: the bytes each writer feeds to the CRC are exactly the bytes it copies after the entry header; the reader hashes the whole buffer it read (not a derived slice); every nil-error return of readEntry is dominated by computed == stored checksum")
 	c.Rule("C06.BOUND", "DOM: the reader's payload allocation and both writers' entry construction execute only under length <= MaxWALPayloadSize")
 	c.Rule("C06.EOF", "DOM: a short entry-header read makes readEntry return io.EOF, io.EOF ends ReadAll's loop, and ReadAll appends entries at the tail in read order at a single site")
 	c.Rule("C06.TAIL", "EXITS: once the file header was accepted, every exit of ReadAll returns the entries read so far with a nil error — a torn or corrupt tail is counted and skipped, never turned into an error (RecoverWithOptions skips a file whose ReadAll failed, which would hide the complete entries before the tear)")
+	c.Rule("C06.ROTATE", "CONST: a rotation cannot re-open the file currently being written and append a second file header into it: rotate opens the new file with O_EXCL, or names it from a nanosecond-resolution clock layout (two rotations then cannot share a name)")
 	c.Rule("C06.FIFO", "WHO: entries reach the file in append order: only tryEnqueue sends on entryChan, only writerLoop receives from it, and writeEntry writes the dequeued bytes itself (no re-enqueue)")
 
 	ar := c.MustFunc("C06.LAYOUT", "(*internal/wal.Writer).AppendRaw")
